@@ -174,6 +174,17 @@ theorem nsx_scope_counterexample :
     ¬ ∀ c ∈ (plan trivialDiff (load {}) { policies := [⟨"my-policy", []⟩] }).calls, managed c.target = true := by
   decide
 
+/-- The excluded point of `accepted` (`policyIdsManaged`), as it was accepted from a raw file before
+the repair a3659de: the policy is never loaded again, so the plan computed on the state the first
+run leaves behind is the same PUT once more — never "unchanged", and rejected by a manager that
+wants `_revision` for an update. -/
+theorem nsx_idempotent_rawpolicy_counterexample :
+    let T : Config := { policies := [⟨"my-policy", [{ id := "raw9", dst := "10.9.9.9" }]⟩] }
+    let p1 := plan prefixDiff (load {}) T
+    (run {} p1.calls).map (fun S1 => ((plan prefixDiff (load S1) T).calls == p1.calls,
+      (run S1 (plan prefixDiff (load S1) T).calls).isSome)) = some (true, false) := by
+  decide
+
 /-- C08 for NSX, about the specification alone (`wf_preserved`): a call the strict manager
 accepts keeps the object store well-formed — unique ids per kind, unique rule ids per policy, no
 dangling reference. -/
@@ -243,6 +254,7 @@ def obligations : List Lean.Name := [``nsx_converges, ``nsx_calls_executable, ``
   ``addrDiff_perm, ``stepItems_spec, ``walk_of_valid, ``adaptGroup_spec, ``equalize_spec,
   ``overA_spec, ``overB_spec, ``planSvc_spec, ``plan_converges, ``nsx_scope, ``nsx_store_frame, ``nsx_frame,
   ``nsx_scope_counterexample, ``nsx_store_wf_preserved, ``nsx_prefix_wf, ``nsx_resume_converges,
-  ``nsx_no_change_only_if_equivalent, ``nsx_equivalent_but_changed_example]
+  ``nsx_no_change_only_if_equivalent, ``nsx_equivalent_but_changed_example,
+  ``nsx_idempotent_rawpolicy_counterexample]
 
 end NA.Nsx
